@@ -1036,7 +1036,7 @@ func rulePoolCtorShared(c *Ctx, p *core.Program, rule string) {
 	}
 	n := 0
 	for _, ctor := range p.Funcs() {
-		if pkgOf(ctor) == nil || pkgOf(ctor).Path() != core.PkgPool || ctor.Blocks == nil || ctor.Parent() == nil {
+		if pkgOf(ctor) == nil || pkgOf(ctor).Path() != core.PkgPool || ctor.Blocks == nil {
 			continue
 		}
 		if len(core.FindCalls(ctor, func(f *types.Func) bool { return core.IsFunc(f, core.PkgCh, "Dial") })) == 0 {
